@@ -750,8 +750,18 @@ class Executor:
         self._reclassify(r)
         qn = getattr(solver, "Qn", None)
         r.qn = field_obs(qn) if qn is not None else None
-        r.args_mutated = (list(np.asarray(ts_arg, dtype=float)) != list(ts)) or \
-            (stop is not None and stop != stop_copy)
+        def _fx(v):
+            try:
+                return float(v).hex()
+            except Exception:  # noqa
+                return repr(v)
+        try:
+            ts_now = [_fx(v) for v in (ts_arg.tolist() if hasattr(ts_arg, "tolist") else list(ts_arg))]
+        except Exception:  # noqa
+            ts_now = None
+        ts_ref = [_fx(v) for v in (ts_shared[1] if ts_shared is not None else ts)]
+        r.args_mutated = (ts_now != ts_ref) or \
+            (stop is not None and {k: _fx(v) for k, v in stop.items()} != {k: _fx(v) for k, v in stop_copy.items()})
         # monitor dictionaries: those not involved in this call must be untouched; the
         # involved ones may only gain/replace the 'output' of their entries
         involved = {id(d) for d in (self.world.cmon[s], mons) if d is not None}
